@@ -29,22 +29,27 @@ def mc(text, note, ref, tech='SMT bounded model checking of kernel LLVM IR (llbm
 CLAIMED.update({
  'C01': mc('Bounded model checking of the slicing kernels and the range pipeline (carrylength -> allocation -> range) against CPython slice/index '
            'semantics stated independently in z3: per list the selected positions, their order, the carry offsets and the error outcome, for all '
-           '64-bit start/stop/at values (regularize_rangeslice: every value, no size bound), lists <= 2/3 of length <= 3/4, |step| <= 2/3.',
-           'Kernel and kernel-pipeline level: Content::getitem tuple orchestration, toslice() (pybind11), field/ellipsis/newaxis items and the '
-           'jagged-slice kernels are outside this claim. Trusted: IR encoder, z3, the CPython slice model in hlib.py.', 'DESIGN.md section 3 (C01)'),
+           '64-bit start/stop/at values (regularize_rangeslice: every value, no size bound), lists <= 2/3 of length <= 3/4, |step| <= 2/3. C++ method level: getitem_at / getitem_range (wrap, clamp, hand-over to the content) and '
+           'getitem_next(SliceAt / SliceRange / SliceArray64) of ListOffsetArray64, ListArray64 and RegularArray run from their IR on nodes with symbolic buffers '
+           '(list lengths case-split, origins / gaps / index values symbolic) over an opaque content; the real result objects are decoded from memory and compared with '
+           'Python indexing applied to the nested list of atoms.',
+           'Kernel, kernel-pipeline and single-node method level: Content::getitem tuple orchestration (several items at once), NumpyArray strided getitem, toslice() (pybind11), field/ellipsis/newaxis items and the '
+           'jagged-slice kernels are outside this claim. Trusted: IR encoder, z3, the CPython slice model in hlib.py.', 'DESIGN.md sections 3 (C01) and 9.5', 'SMT bounded model checking of kernel and C++ method LLVM IR (llbmc + z3; node-method harness with an opaque content) against independent oracles; native replay (ASan kernels, whole-library akrun)'),
  'C03': mc('Bounded model checking of every leaf reducer specialization (fold per group with identity, first extremum for arg-reducers, '
            'wrap-around in the output type, float kernels same order/precision) and of the local and non-local branches of '
-           'ListOffsetArray64::reduce_next wired kernel-by-kernel with the buffer sizes the C++ allocates, against a per-(group, depth) fold oracle.',
+           'ListOffsetArray64::reduce_next wired kernel-by-kernel with the buffer sizes the C++ allocates, against a per-(group, depth) fold oracle. C++ method level: ListOffsetArray64::reduce_next (reduction below the list level) from its IR: the content receives '
+           'exactly the covered elements, parents[k] = list of element k, starts[i] = position of list i in what is handed over; results come back one per list.',
            'Outside: Content::reduce axis normalisation, keepdims/mask_identity wrapping, option/record/union nodes, axis=None, complex/datetime. '
            'Bounds: <= 3/4 elements, <= 2/3 groups, non-local lists <= 3 of length <= 2/3 (lengths case-split), products with the group assignment case-split.',
-           'DESIGN.md section 3 (C03)'),
+           'DESIGN.md sections 3 (C03) and 9.5', 'SMT bounded model checking of kernel and C++ method LLVM IR (llbmc + z3; node-method harness with an opaque content) against independent oracles; native replay (ASan kernels, whole-library akrun)'),
  'C04': mc('Narrow claim: the three list re-alignment kernels behind broadcasting - equal lengths align element for element, unequal lengths '
            'raise, length-1 regular dimensions repeat - for all target offsets (zero-based, monotone) and list layouts within n <= 3/4, L <= 3/4.',
            'broadcast_and_apply / array_ufunc (Python over _ext, cannot be imported) are not addressed; this is the kernel core only.', 'DESIGN.md section 3 (C04)'),
  'C05': mc('Bounded model checking of the num / localindex / flatten kernels and the num<->compact_offsets round trip against list-structure laws '
-           '(concatenation law for flatten offsets, missing list = empty list).',
+           '(concatenation law for flatten offsets, missing list = empty list). C++ method level (from the IR, opaque content): num and localindex of ListOffsetArray64 / '
+           'ListArray64 / RegularArray at the list level and below it, IndexedOptionArray64::offsets_and_flattened at and below the list level.',
            'Outside: ak.unflatten (NumPy in Python), completely_flatten, axis plumbing of the C++ methods. Known finding: flatten_offsets reads outside '
-           'inneroffsets for a degenerate empty list whose start == stop lies outside the content (accepted by the documented rule).', 'DESIGN.md section 3 (C05)'),
+           'inneroffsets for a degenerate empty list whose start == stop lies outside the content (accepted by the documented rule).', 'DESIGN.md sections 3 (C05) and 9.5', 'SMT bounded model checking of kernel and C++ method LLVM IR (llbmc + z3; node-method harness with an opaque content) against independent oracles; native replay (ASan kernels, whole-library akrun)'),
  'C07': mc('Bounded model checking of combinations_length -> n carry buffers of totallen -> recursive combinations fill, for n in 1..4, with and '
            'without replacement, against itertools tables; list lengths case-split (<= 4), starts symbolic; counts, order, no neighbour leakage, fill = count.',
            'Outside: ak.cartesian/argcartesian (Python), records/options as element types; RegularArray capacity arithmetic done in C++.', 'DESIGN.md section 3 (C07)'),
@@ -54,8 +59,9 @@ CLAIMED.update({
            'DESIGN.md section 3 (C08)'),
  'C09': mc('Bounded model checking of the rpad pipelines (length kernel sizes the index buffer of the fill kernel) for ListArray, ListOffsetArray, '
            'RegularArray against the pad law, and of ten option-encoding kernels against one shared validity vector (index<0, byte mask either polarity, '
-           'bit mask either order and polarity, lengths not a multiple of 8).',
-           'Outside: ak.fill_none/is_none/mask Python wrappers, fillna merge step, simplify_optiontype.', 'DESIGN.md section 3 (C09)'),
+           'bit mask either order and polarity, lengths not a multiple of 8). C++ method level (from the IR, opaque content): rpad and rpad_and_clip of ListOffsetArray64 / ListArray64 / '
+           'RegularArray at the list level (result nodes decoded, pad law on the nested list of atoms) and below it.',
+           'Outside: ak.fill_none/is_none/mask Python wrappers, fillna merge step, simplify_optiontype.', 'DESIGN.md sections 3 (C09) and 9.5', 'SMT bounded model checking of kernel and C++ method LLVM IR (llbmc + z3; node-method harness with an opaque content) against independent oracles; native replay (ASan kernels, whole-library akrun)'),
 })
 
 CLAIMED.update({
@@ -83,8 +89,10 @@ CLAIMED.update({
            'sort_next methods, string sorting kernels. Known finding: the unstable float sort (quick_sort) does not put NaN first.', 'DESIGN.md section 3 (C06)'),
  'C14': mc('Narrow claim (GrowableBuffer only): one inductive step of append / set_length / clear of GrowableBuffer<int64_t>, executed symbolically from '
            'the method IR from an arbitrary state satisfying the representation invariant: writes stay inside the buffer they target, cells [0, old '
-           'length) of the old buffer (shared with snapshots) are never written, the prefix is preserved across reallocation, the invariant is re-established.',
-           'The builder tree, from_iter and LayoutBuilder (value reproduction) are outside. kernel::malloc stubbed (fresh exact-size buffer), resize in [1.5, 16] '
+           'length) of the old buffer (shared with snapshots) are never written, the prefix is preserved across reallocation, the invariant is re-established. '
+           'Builder tree: RecordBuilder::endrecord as one inductive step from any open-record state (fields filled at most once, any key cursor) with opaque field '
+           'builders: every field ends with exactly one entry per closed record (missing fields receive null()).',
+           'The other builders (Unknown/Option/Union/List/Tuple and the leaf builders), from_iter and LayoutBuilder are outside. kernel::malloc stubbed (fresh exact-size buffer), resize in [1.5, 16] '
            '(thorough adds (1, 1.5]).', 'DESIGN.md section 3 (C14)', 'SMT bounded model checking of C++ method LLVM IR (llbmc M-harness, z3 FP); native ASan replay'),
  'C18': mc('Partitioned arrays only: (a) IrregularlyPartitionedArray::partitionid_index_at from its IR for every non-decreasing stops vector of <= 4 (thorough 6) '
            'partitions, empty ones included, and every 64-bit position; (b) PartitionedArray::getitem_range(start, stop, step) (regularize_rangeslice + '
